@@ -61,6 +61,39 @@ fn epoch_clock(rng: &mut Rng, now: u64, b: u64, dur: u64) -> u64 {
     }
 }
 
+/// value of a SetDuration: the alphabet around the lower bound (1 day) and around the current value
+fn duration_class(rng: &mut Rng, dur: u64) -> u64 {
+    match rng.below(16) {
+        0..=3 => raised_duration(rng, dur),
+        4..=5 => DAY_NS,
+        6 => dur,
+        7 => dur + 1,
+        8 => DAY_NS + HOUR_NS,
+        9 => (dur / 2).max(DAY_NS),
+        10 => DAY_NS + 1,
+        // invalid: below one day
+        11 => DAY_NS - 1,
+        12 => 0,
+        13 => 1,
+        14 => DAY_NS / 2,
+        _ => rng.range(1, DAY_NS - 1),
+    }
+}
+
+/// a longer duration, at most 6 days
+fn raised_duration(rng: &mut Rng, dur: u64) -> u64 {
+    let v = match rng.below(4) {
+        0 => dur.saturating_add(DAY_NS),
+        1 => dur.saturating_mul(3),
+        _ => dur.saturating_mul(2),
+    };
+    if v > 6 * DAY_NS {
+        dur.saturating_add(DAY_NS).min(7 * DAY_NS)
+    } else {
+        v
+    }
+}
+
 fn amount_class(rng: &mut Rng, liq: u128) -> u128 {
     match rng.below(10) {
         0 => rng.range128(1, 2_000),
@@ -89,7 +122,57 @@ pub fn gen_step(s: &mut Hub, rng: &mut Rng, ctx: &mut Ctx) -> Step {
         w[W_NEW_EPOCH] = w[W_NEW_EPOCH] * 3 + 20;
         w[W_CATCH_UP] *= 2;
     }
-    let mut kind = rng.weighted(&w);
+    // ---- the late-first-bonder script (see `Cfg::late_bonder_script`): the last user stays out until the
+    // owner has raised the duration mid-history, then bonds in the middle of an epoch and keeps claiming
+    let script = s.cfg.late_bonder_script && n >= 2;
+    let late_user = n - 1;
+    if script {
+        if !s.model.dur_raised_mid {
+            if s.model.epochs.len() >= s.cfg.script_epochs as usize && !due && rng.chance(1, 2) {
+                let adv_ns = if rng.chance(1, 2) { 0 } else { rng.below(2) * BLOCK_NS + rng.below(3) };
+                let adv_ns = if now.saturating_add(adv_ns) >= b { 0 } else { adv_ns };
+                ctx.probe("script_duration_raise_generated");
+                let adv_blocks = blocks_for(rng, adv_ns);
+                return Step { actor, op: Op::SetDuration { duration_ns: raised_duration(rng, dur), by_owner: true }, adv_ns, adv_blocks, fault: Fault::None };
+            }
+            w[W_NEW_EPOCH] += 16;
+        } else if !s.model.ever_bonded[late_user] {
+            if let Some(e) = s.model.epochs.last() {
+                let off = now.saturating_sub(e.start_time.nanos());
+                // the lair accepts bondings during the first day of the current epoch only
+                if off + 7 * HOUR_NS < DAY_NS && rng.chance(2, 3) {
+                    let adv_ns = match rng.below(8) {
+                        0 if off >= 1_000_000_000 => 0,
+                        1 => 1_000_000_000 + rng.below(1000),
+                        _ => rng.range(1, 6) * HOUR_NS + rng.below(1000),
+                    };
+                    let denom = rng.idx(2);
+                    let amount = match rng.below(4) {
+                        0 => rng.range128(1, 1_000),
+                        1 => *rng.pick(&[1_000_000u128, 250_000, 50_000_000]),
+                        _ => rng.log_amount(1_000_000_000_000),
+                    };
+                    ctx.probe("script_late_first_bond_generated");
+                    let adv_blocks = blocks_for(rng, adv_ns);
+                    return Step { actor: late_user, op: Op::Bond { denom, amount }, adv_ns, adv_blocks, fault: Fault::None };
+                }
+            }
+        } else if rng.chance(1, 3) {
+            let mut adv_ns = idle_clock(rng, now, b, dur);
+            if now.saturating_add(adv_ns) > b.saturating_add(dur) {
+                adv_ns = 0;
+            }
+            ctx.probe("script_late_bonder_claim_generated");
+            let adv_blocks = blocks_for(rng, adv_ns);
+            return Step { actor: late_user, op: Op::Claim, adv_ns, adv_blocks, fault: Fault::None };
+        }
+    }
+    // one more op kind than `Cfg::weights` has slots for
+    const W_SET_DURATION: usize = N_OPS;
+    let mut w16 = [0u32; N_OPS + 1];
+    w16[..N_OPS].copy_from_slice(&w);
+    w16[N_OPS] = s.cfg.w_set_duration;
+    let mut kind = rng.weighted(&w16);
     if kind == W_WITHDRAW && s.model.unbonds.is_empty() && rng.chance(4, 5) {
         kind = W_SWAP;
     }
@@ -265,6 +348,10 @@ pub fn gen_step(s: &mut Hub, rng: &mut Rng, ctx: &mut Ctx) -> Step {
             };
             Op::SetGrace { value, by_owner }
         }
+        W_SET_DURATION => {
+            let by_owner = rng.chance(5, 6);
+            Op::SetDuration { duration_ns: duration_class(rng, dur), by_owner }
+        }
         W_SET_TAKE => {
             let by_owner = rng.chance(5, 6);
             let rate = match rng.below(9) {
@@ -316,6 +403,10 @@ pub fn gen_step(s: &mut Hub, rng: &mut Rng, ctx: &mut Ctx) -> Step {
     // run is meant to collect many epochs: idle moves stop at most one duration after the boundary
     if !matches!(op, Op::NewEpoch | Op::CatchUp { .. } | Op::Withdraw { .. }) && now.saturating_add(adv_ns) > b.saturating_add(dur) {
         adv_ns = 0;
+    }
+    if script && !s.model.dur_raised_mid && actor == late_user && matches!(op, Op::Bond { .. }) {
+        // the script's late bonder stays out until the duration has been raised
+        actor = rng.idx(n - 1);
     }
     let adv_blocks = blocks_for(rng, adv_ns);
     Step { actor, op, adv_ns, adv_blocks, fault }
